@@ -22,6 +22,11 @@ func (s *Stream) Decode() ([]byte, error) {
 
 	// Handle single filter
 	if filterName, ok := filterObj.(Name); ok {
+		// The parameters of a single filter may also be written as a
+		// one-element array
+		if paramsArray, ok := paramsObj.(Array); ok && len(paramsArray) > 0 {
+			paramsObj = paramsArray[0]
+		}
 		return decodeWithFilter(s.Data, string(filterName), paramsObjToDict(paramsObj))
 	}
 
